@@ -122,6 +122,22 @@ Definition io_covers (s : state) : bool :=
 
 Definition imp (a b : bool) : bool := negb a || b.
 
+(* the worker has changed total_outbufs_len / set a flag and its next steps decide about (or
+   perform) the pull_trigger for it *)
+Definition act_tot (p : wpc) : bool :=
+  match p with WWs5 | WWsF _ | WWs6 | WWsP => true | _ => false end.
+Definition act_wc (p : wpc) : bool :=
+  match p with WWsP | WHwEP _ => true | _ => false end.
+Definition act_cwf (p : wpc) : bool :=
+  match p with WCl3 | WCl4 | WEnd1 | WEnd2 => true | _ => false end.
+
+(* wake-up per cause, also when workers sit in the application (WApp) *)
+Definition g6_b (c : cfg) (s : state) : bool :=
+  closed s ||
+  (imp ((0 <? total s) && (sb c <=? total s)) (pulled s || cov_tot (io s) || existsb act_tot (ws s)) &&
+   imp (wc s) (pulled s || cov_wc (io s) || existsb act_wc (ws s)) &&
+   imp (cwf s) (pulled s || cov_cwf (io s) || existsb act_cwf (ws s))).
+
 (* per-worker part; j is the worker's index *)
 Definition winv_b (c : cfg) (s : state) (j : nat) (p : wpc) : bool :=
   imp (w_holds_o p) (holds (olock s) (TW j)) &&
@@ -165,6 +181,7 @@ Definition inv_b (c : cfg) (s : state) : bool :=
   imp (negb (closed s) && readable_now c s) (pulled s || rcov (io s) || existsb will_pull (ws s)) &&
   imp (Nat.ltb 0 (queue s)) (existsb (fun p => negb (w_idle p)) (ws s)) &&
   forallb (fun j => Nat.ltb j (length (ws s))) (qwait s) &&
+  g6_b c s &&
   forallb_i (winv_b c s) 0 (ws s).
 
 (* the invariant is claimed outside the F18 class only *)
@@ -172,6 +189,13 @@ Definition inv_ok (c : cfg) (s : state) : bool := taint s || inv_b c s.
 
 (* quiescence in the narrow sense of the property: the I/O thread sleeps in select,
    every worker is parked on queue_cv or on outbuf_lock's condition *)
+(* ... or is inside the application (a streaming application waiting for its consumer) *)
+Definition quiescent_app (s : state) : bool :=
+  match io s with IoSel r w => negb (sel_enabled s r w) | _ => false end &&
+  forallb (fun p => w_idle p || parked_o p || match p with WApp => true | _ => false end) (ws s).
+Definition app_ok (c : cfg) (s : state) : bool :=
+  (closed s || negb ((0 <? pend s) && (sb c <=? pend s))) && no_producer_parked s && closing_closed s.
+
 Definition quiescent_parked (s : state) : bool :=
   match io s with IoSel r w => negb (sel_enabled s r w) | _ => false end &&
   forallb (fun p => w_idle p || parked_o p) (ws s).
